@@ -19,6 +19,7 @@ HARNESS = os.path.join(vlib.VERIF, "harness", "eng", "session.cc")
 DRIVER = os.path.join(vlib.VERIF, "ocaml", "eng", "driver.ml")
 ENV = {"ASAN_OPTIONS": "detect_leaks=0:abort_on_error=0", "UBSAN_OPTIONS": "print_stacktrace=1"}
 
+OPENCC = "/usr/share/opencc"
 SYNTH = ["synth_express", "synth_fluid"]
 STOCK = ["luna_pinyin", "luna_pinyin_fluid", "cangjie5", "cangjie5_fluid"]
 
@@ -75,6 +76,8 @@ def prepare_workspaces(work, flavour="asan", stock=True):
     if stock and not os.path.exists(os.path.join(work, "stock", ".deployed")):
         tmpl = vlib.stock_workspace(flavour, extra_shared=stock_extra_files(), name="eng")
         vlib.copy_workspace(tmpl, os.path.join(work, "stock"))
+        if os.path.isdir(OPENCC):      # the simplifier's dictionaries (zh_simp, zh_tw, simplification)
+            shutil.copytree(OPENCC, os.path.join(work, "stock", "shared", "opencc"), dirs_exist_ok=True)
         with open(os.path.join(work, "stock", ".deployed"), "w") as f:
             f.write("1")
     return work
@@ -180,7 +183,7 @@ KEY_POOL = ([ord(c) for c in LETTERS] * 3 + [ord(c) for c in "0123456789"] + [or
 MASK_POOL = [0] * 12 + [SHIFT, SHIFT, CTRL, CTRL, ALT, SUPER, RELEASE, LOCK, SHIFT | CTRL, CTRL | ALT, SHIFT | RELEASE,
                         CTRL | SHIFT | ALT]
 OPTIONS = ["ascii_mode", "_linear", "_vertical", "_horizontal", "soft_cursor", "_auto_commit", "dumb", "simplification",
-           "full_shape", "ascii_punct", "zz"]
+           "full_shape", "ascii_punct", "zz", "verif_short", "verif_short"]
 SIZE_MAX = (1 << 64) - 1
 
 
@@ -393,3 +396,71 @@ def gen_commit_history(rng, length, stock=False):
             ops.append(rng.choice(["clear", "getctx", "opt soft_cursor %d" % rng.randrange(2),
                                    "input " + "".join(rng.choice(LETTERS) for _ in range(rng.randrange(1, 9))).encode().hex()]))
     return ops[:length]
+
+
+# ---------------------------------------------------------------------------
+# C05: long inputs (more than 128 spelling letters in front of the caret)
+# ---------------------------------------------------------------------------
+
+def long_edit_histories(lengths, cheap="ni"):
+    """Histories that type n letters (n > 128: a segmentor that cuts spellings into chunks shows only
+    there) and then apply each short tail of editing keys.  cheap: the repeated letters."""
+    tails = [["Escape"], ["Home", "Escape"], ["KP_Left"] * 3 + ["Escape"], ["BackSpace", "Escape"], ["Delete", "End", "Escape"],
+             ["End", "Escape", "KP_Left"], ["Home", "Delete", "KP_Right", "Escape"], ["KP_Left"] * 140 + ["Escape"]]
+    res = []
+    for n in lengths:
+        typed = [key(ord(cheap[i % len(cheap)])) for i in range(n)]
+        for t in tails:
+            res.append(typed + [key(XK[k]) for k in t] + [key(ord("a")), key(XK["Escape"])])
+    return res
+
+
+# ---------------------------------------------------------------------------
+# C02: navigator span cache after trailing deletions; option toggles after moving the highlight
+# ---------------------------------------------------------------------------
+
+SYLLABLES = ["ni", "hao", "ma", "zhong", "guo", "shi", "jie", "wo", "men", "de", "ab", "cd", "uv"]
+MOVES = [(XK["Right"], CTRL), (XK["Left"], CTRL), (XK["Right"], SHIFT), (XK["Left"], SHIFT), (XK["Tab"], 0), (XK["Tab"], SHIFT),
+         (XK["Right"], 0), (XK["Left"], 0)]
+
+
+def gen_span_history(rng):
+    """type a multi-syllable input; a navigator key (spans get recorded); End; BackSpace x k with no
+    selection in between; one move; then each syllable-/character-wise move; reads after each step."""
+    ops = ["getctx"]
+    for syl in [rng.choice(SYLLABLES) for _ in range(rng.randrange(2, 6))]:
+        ops += [key(ord(ch)) for ch in syl]
+    ops.append(key(*rng.choice([(XK["Left"], 0), (XK["Left"], CTRL), (XK["Home"], 0), (XK["KP_Left"], 0), (XK["Right"], CTRL)])))
+    ops.append(key(XK["End"]))
+    ops += [key(XK["BackSpace"])] * rng.randrange(1, 5)
+    ops.append("getinput")
+    ops.append(key(*rng.choice([(XK["Left"], 0), (XK["KP_Left"], 0), (XK["Left"], CTRL), (XK["Right"], CTRL), (XK["KP_Right"], 0)])))
+    moves = list(MOVES)
+    rng.shuffle(moves)
+    for m in moves:
+        ops.append(key(*m))
+        ops.append(rng.choice(["getinput", "getctx"]))
+    return ops
+
+
+STOCK_OPTIONS = ["zh_simp", "zh_tw", "zh_trad", "zh_hk", "simplification", "extended_charset", "full_shape", "ascii_punct"]
+
+
+def gen_option_history(rng, stock):
+    """type 1-2 syllables; move the highlight (Down / Page_Down / highlight); toggle an option that can
+    change the candidate list; read the context."""
+    ops = ["getctx"]
+    for _ in range(rng.randrange(1, 4)):
+        word = rng.choice(SYLLABLES + ["ei", "a", "yi", "shi", "ji"]) if stock else \
+            "".join(rng.choice(LETTERS) for _ in range(rng.randrange(1, 5)))
+        ops += [key(ord(ch)) for ch in word]
+        for _ in range(rng.randrange(1, 7)):
+            ops.append(rng.choice([key(XK["Down"]), key(XK["Down"]), key(XK["Next"]), "hl %d" % rng.randrange(0, 12), "page 0"]))
+        opt = rng.choice(STOCK_OPTIONS) if stock else rng.choice(["verif_short", "verif_short", "soft_cursor", "zz"])
+        ops.append("opt %s %d" % (opt, rng.randrange(2)))
+        ops.append("getctx")
+        if rng.random() < 0.5:
+            ops.append("opt %s %d" % (opt, rng.randrange(2)))
+            ops.append("getctx")
+        ops.append(rng.choice([key(XK["Down"]), key(XK["Up"]), "getctx", key(XK["Escape"])]))
+    return ops
